@@ -42,6 +42,7 @@ func verifCallTotal(name string, args []types.XValue) {
 // VerifC04_Functions1: every registered function called with no argument and
 // with one argument of every kind (incl. an arbitrary short text and an
 // arbitrary 64-bit integer) returns a value or an error value: no panic.
+// hang: violation
 // cover: value, error-value
 func VerifC04_Functions1() {
 	names := verifFunctionNames()
@@ -53,17 +54,18 @@ func VerifC04_Functions1() {
 	verifCallTotal(name, []types.XValue{verifArgValue(zzverif.Choice("arg-kind", verifNumArgKinds))})
 }
 
-var verifKinds2 = []int{0, 3, 6, 14, 16}
+var verifKinds2 = []int{0, 3, 6, 14, 16, 24}
 
 // first arguments of the quick tier's two-argument calls (every kind is a
 // first argument in Functions1 and in the thorough tier)
-var verifKinds2First = []int{0, 1, 2, 3, 4, 6, 7, 9, 10, 13, 15, 16, 20, 22}
+var verifKinds2First = []int{0, 1, 2, 3, 4, 6, 7, 9, 10, 13, 15, 16, 20, 22, 23}
 
 // VerifC04_Functions2: every registered function with two arguments: the
 // first from a menu of 14 kinds, the second from a menu of 5 (quick) / both of
 // every kind (thorough); at most one of the two is symbolic (symbolic-by-symbolic
 // decimal arithmetic — e.g. mod of two unknown numbers — is beyond the
 // solvers and outside the claim).
+// hang: violation
 // cover: value, error-value
 func VerifC04_Functions2() {
 	names := verifFunctionNames()
@@ -92,6 +94,7 @@ var verifKinds3Thorough = []int{0, 3, 6, 8, 14, 16, 19}
 // VerifC04_Functions3: every registered function with three (quick) / three
 // and four (thorough) arguments from a reduced menu (nil, arbitrary text,
 // arbitrary integer, huge number, nested array, error).
+// hang: violation
 // cover: value, error-value
 func VerifC04_Functions3() {
 	names := verifFunctionNames()
